@@ -13,7 +13,7 @@
 \*         mixed  HTML-parser document with namespaces (html5lib style): XHTML elements, the generic
 \*                elements from position 3 on in a foreign namespace (xml:lang for them)
 EXTENDS CssDecl, TLC, Json, SequencesExt
-CONSTANTS MaxChain, Modes, Metas, IframeAts, Inners
+CONSTANTS MaxChain, Modes, Metas, IframeAts, Inners, XhtmlMeta
 VARIABLES doc, tip, n, c
 
 HtmlN == LangHtmlName
@@ -63,7 +63,9 @@ MetaAttrs(m) ==
 
 Cfgs == {x \in [mode : Modes, meta : Metas, ip : IframeAts, inner : Inners] :
             /\ x.ip = 0 \/ (x.ip >= 2 /\ x.ip <= MaxChain)
-            /\ x.inner # "none" => (x.ip >= 2 /\ x.ip < MaxChain)}
+            /\ x.inner # "none" => (x.ip >= 2 /\ x.ip < MaxChain)
+            \* XHTML documents with a pragma are enumerated by a run of their own (XhtmlMeta = TRUE)
+            /\ (x.mode = "xhtml" /\ x.inner = "none") => ((x.meta # "none") = XhtmlMeta)}
 
 Init == /\ c \in Cfgs
         /\ doc = EmptyDoc("doc", c.mode \in {"xml", "xhtml"})
